@@ -23,6 +23,9 @@ type CASpec struct {
 	ParamID int    // curve, standardized domain parameter id 8..18
 	KeyID   *int
 	Params  string // "explicit" (default) | "named"
+	// ForeignDG14: DG14 publishes ANOTHER public key than the one the chip holds (a clone that
+	// kept the genuine DG14 but has its own key pair, seen from the chip: "substituted keys")
+	ForeignDG14 bool
 }
 
 // AASpec describes the Active Authentication key.
@@ -216,7 +219,11 @@ func New(o Options) (*Passport, error) {
 		if params == "" {
 			params = "explicit"
 		}
-		caSpecs = append(caSpecs, chipsim.CAKeySpec{OID: c.OID, KeyID: c.KeyID, ParamID: c.ParamID, Priv: priv, Params: params, Cofactor: true})
+		pubPriv := priv
+		if c.ForeignDG14 {
+			pubPriv = randScalar(curve, rnd)
+		}
+		caSpecs = append(caSpecs, chipsim.CAKeySpec{OID: c.OID, KeyID: c.KeyID, ParamID: c.ParamID, Priv: pubPriv, Params: params, Cofactor: true})
 	}
 	// CA key OID "" : the chip still needs a protocol to run; it answers MSE:Set KAT / 3DES
 	chipCAKeys := append([]chipsim.CAKey{}, p.CAKeys...)
